@@ -26,6 +26,7 @@ CLAUSE = CLAUSE + (" The PES header validation reads no byte beyond the look-ahe
                    "its verdict depends on where the input was cut).")
 CLAUSE = CLAUSE + (" frame_pts is latched from packet_pts only under dx->new_frame; no case of the PES header switch falls through "
                    "into another label.")
+CLAUSE = CLAUSE + (' (RF-UNIT) every wrap-around skip computed behind the start-code scan anchor contains the scanned distance (cursor - anchor).')
 NOT_DECIDED = ("partition invariance as such (that feeding byte by byte yields identical frames), 'all but the first frame after "
                "damage are delivered', PES/TS header field semantics.")
 
